@@ -12,6 +12,22 @@ def main(argv=None):
     ck = Check("C07", argv, level="other")
     res = world.run_functions(ck, ["environ"], FUNCS, timeout=20 if ck.tier == "quick" else 60, hooks_mod="contracts.environ")
     world.report(ck, res, select=lambda n: any(k in n for k in KEEP))
+    # wsgi.input is the receiver's buffer: the body bytes must come out of it exactly as they went in, across the spill to a temporary file
+    bufs = ["buffers.OverflowableBuffer.__len__", "buffers.OverflowableBuffer.append", "buffers.OverflowableBuffer.get", "buffers.OverflowableBuffer.getfile",
+            "buffers.FileBasedBuffer.__init__", "buffers.FileBasedBuffer.append", "buffers.FileBasedBuffer.get", "buffers.FileBasedBuffer.getfile"]
+    resb = world.run_functions(ck, ["buffers"], bufs, timeout=20)
+    from vlib.modelreplay import make_replayer
+    world.report(ck, resb, replayer=make_replayer(ck, ["buffers"]))
+    k = 2 if ck.tier == "quick" else 3
+    payload = {"k": k, "overflows": [0, 1, 8191, 8192, 8193, 20000], "seed": ck.seed, "random": 200 if ck.tier == "quick" else 2000}
+    rep = ck.native("histories", payload, timeout=3000, module="C17")
+    ck.bounded.append({"label": "bounded", "what": "real OverflowableBuffer over real BytesIO/TemporaryFile vs a bytearray queue (incl. getfile(): the stream handed to the application)",
+                       "bound": "all operation histories of length <= %d over 17 operations x 6 overflow thresholds, plus %d seeded random histories" % (k, payload["random"]),
+                       "evaluations": rep.get("total", 0), "failures": rep.get("failures", rep)})
+    if rep.get("failures"):
+        f = rep["failures"][0]
+        ck.fail("buffers.OverflowableBuffer/bounded:fifo-histories", "history:" + repr(f)[:80], "bounded stand-in: real buffer deviates from a FIFO byte queue: %s" % f["problem"],
+                replay={"history": f, "label": "bounded"}, reproduced=True)
     ck.trusted.extend(["dict model with symbolic keys: membership of a symbolic key agrees with every known entry; a write under a symbolic key can only hit an entry it can equal",
                        "hooks state the fold clauses at the store itself (names with '_' never stored, CGI key without '-', repeated fields appended after ', ')",
                        "urlsplit / unquote_to_bytes component semantics (request.path is taken as the percent-decoded path)", "pyvc, cvc5/z3"])
